@@ -282,7 +282,30 @@ class Engine:
                 continue
             for dst, src in (cs.views or []):
                 self._alias(run, st, ref, dst, src)
+            if cs.setup is not None:
+                cs.setup(run, st, ref)
         return ref
+
+    def record_map(self, run, st, name, cls, shared_rng=None):
+        """dict arm -> object of class `cls`, one column per declared field (the rng field becomes a slot that is
+        either the bandit's shared generator or a private copy)."""
+        cols, vk = {}, {}
+        for f, d in specmod.class_fields(self.repo, cls).items():
+            d = d.replace(' const', '').strip()
+            if d == 'rng':
+                cols['#rng_shared'] = fresh(name + '_rng_shared', z3.ArraySort(Arm, Bool))
+                cols['#rng_state'] = fresh(name + '_rng_state', z3.ArraySort(Arm, Rng))
+                vk['#rng_shared'] = 'bool'
+                vk['#rng_state'] = 'rngstate'
+                continue
+            kind = RECORD_KINDS.get(d)
+            if kind is None:
+                raise Unsupported('record map column %s: %s' % (f, d))
+            cols[f] = fresh(name + '_' + f, z3.ArraySort(Arm, VKIND_SORT[kind]))
+            vk[f] = kind
+        m = MapO(fresh(name + '_keys', ASeq), cols, vk, record_cls=cls)
+        m.shared_rng = shared_rng
+        return st.alloc(m, fresh=False)
 
     def _alias(self, run, st, ref, dst, src):
         def walk(path):
@@ -330,6 +353,9 @@ class Engine:
                 raise Unsupported('dict(genexp) element')
             return v
         return loops.build_map_from_pairs(run, dom, body, 'line %d' % n.lineno)
+
+    def class_decls(self, cls):
+        return specmod.class_fields(self.repo, cls)
 
     def loop_invariant(self, run, where):
         return None
@@ -399,7 +425,10 @@ class Engine:
         run.names = C.loc_names(st, env)
         # type invariants of symbolic inputs + requires
         for c in C.expand(run, sp.requires, env, cls):
-            st.assume(C.eval_clause(run, c, env, fi=fi, dyn_cls=cls))
+            g = C.eval_clause(run, c, env, fi=fi, dyn_cls=cls)
+            if z3.is_false(z3.simplify(g)):
+                raise Infeasible()      # a case split that contradicts the contract's requires
+            st.assume(g)
         if first:
             ob = run.emit('cover', z3.BoolVal(True), 'requires satisfiable')
             ob.expect_sat = True
@@ -424,6 +453,15 @@ class Engine:
         for (exc, st1, where) in getattr(run, 'pending_raises', []):
             self._loop_exceptional(run, fi, sp, cls, env, entry, roots, exc, st1, where)
         # normal exit: postconditions, then frame
+        if sp.raises_iff:
+            saved = run.st
+            run.st = entry
+            try:
+                cnd = C.eval_clause(run, specmod.Clause(sp.raises_iff), env, fi=fi, dyn_cls=cls)
+            finally:
+                run.st = saved
+            run.emit('noraise.cond', z3.Not(cnd), 'a call that returns normally was not to be rejected',
+                     meta={'clause': 'not (' + sp.raises_iff + ')'})
         env2 = dict(env)
         env2['result'] = result
         for k, c in enumerate(C.expand(run, sp.ensures, env, cls)):
@@ -441,6 +479,14 @@ class Engine:
             return
         if sp.raises != '*' and e.exc_type not in sp.raises:
             run.emit('raises.type', z3.BoolVal(False), '%s %s' % (e.exc_type, e.where))
+        if sp.raises_iff:
+            saved = run.st
+            run.st = entry
+            try:
+                cnd = C.eval_clause(run, specmod.Clause(sp.raises_iff), env, fi=fi, dyn_cls=cls)
+            finally:
+                run.st = saved
+            run.emit('raises.cond', cnd, '%s %s' % (e.exc_type, e.where), meta={'clause': sp.raises_iff})
         for k, c in enumerate(C.expand(run, sp.ensures_raises, env, cls)):
             g = C.eval_clause(run, c, env, old_state=entry, fi=fi, dyn_cls=cls)
             run.emit('raises.post', g, c.name or ('#%d' % k), props=c.props or sp.props, meta={'clause': c.text})
@@ -468,7 +514,7 @@ class Engine:
 
 run_isnone = smt.F('is_none', Opaque, Bool)
 RECORD_KINDS = {'real': 'real', 'int': 'int', 'bool': 'bool', 'mat': 'mat', 'rseq': 'rseq', 'opaque': 'opaque',
-                'optopaque': 'opaque', 'rngref': 'int', 'arm': 'arm'}
+                'optopaque': 'opaque', 'arm': 'arm', 'opt:scaler': 'opaque', 'scaler': 'opaque'}
 
 
 def load_specs():
